@@ -178,3 +178,56 @@ def values_equal(ex, a, b):
     if (isinstance(na, bool) and not na) and (isinstance(nb, bool) and not nb):
         return core
     return z_or(z_and(na, nb), z_and(z_not(na), z_not(nb), core))
+
+
+_OK_KINDS = None
+
+
+def _pattern_ok(t, bound_names):
+    global _OK_KINDS
+    if _OK_KINDS is None:
+        _OK_KINDS = {z3.Z3_OP_UNINTERPRETED, z3.Z3_OP_SELECT,
+                     z3.Z3_OP_DT_CONSTRUCTOR, z3.Z3_OP_DT_ACCESSOR,
+                     z3.Z3_OP_ANUM, z3.Z3_OP_ADD, z3.Z3_OP_TO_REAL}
+    stack = [t]
+    has_var = False
+    while stack:
+        x = stack.pop()
+        if z3.is_quantifier(x):
+            return False
+        if z3.is_var(x):
+            has_var = True
+            continue
+        if not z3.is_app(x):
+            return False
+        if x.num_args() == 0:
+            if x.decl().name() in bound_names:
+                has_var = True
+            continue
+        if x.decl().kind() not in _OK_KINDS:
+            return False
+        stack.extend(x.children())
+    return has_var
+
+
+def forall(vs, body, patterns=None):
+    """z3.ForAll that silently drops patterns z3 would reject (patterns over
+    lambda / store / boolean structure)."""
+    if isinstance(body, bool):
+        return z3.BoolVal(body)
+    if patterns:
+        names = set(v.decl().name() for v in vs)
+        ok = []
+        for p in patterns:
+            if isinstance(p, z3.PatternRef):
+                ok.append(p)
+                continue
+            if _pattern_ok(p, names):
+                ok.append(p)
+        # every bound variable must occur in each (multi)pattern; z3 checks
+        if ok:
+            try:
+                return z3.ForAll(vs, body, patterns=ok)
+            except z3.Z3Exception:
+                pass
+    return z3.ForAll(vs, body)
